@@ -167,10 +167,14 @@ def run_shard(spec, rep):
         elif u < 0.55:
             mix = gen.synth_mixture(rng, zero_nrtl=True)
             mdesc, zero = gen.describe_mixture(mix), True
+        elif u < 0.65:
+            # a user-defined mixture that carries the data of one model only (optional fields of the other left out)
+            mix = gen.synth_mixture(rng, only=rng.choice(["NRTL", "NRTL", "UNIQUAC"]))
+            mdesc = gen.describe_mixture(mix)
         else:
             mix = gen.synth_mixture(rng)
             mdesc = gen.describe_mixture(mix)
-        model = "NRTL" if zero else rng.choice(["NRTL", "UNIQUAC"])
+        model = "NRTL" if zero else gen.pick_model(rng, mix)
         T = gen.pick_temperature(rng, 273, 400)  # a share of the cases shares few temperatures (and all synthetic mixtures share one name)
         v = rng.random()
         if v < 0.5:
